@@ -12,7 +12,9 @@ Local Open Scope N_scope.
    kinds of object with "}," and none with a bare "}", seeks back one character only when
    tellp() > 1, streams "]" last; beginEvents is declared per thread (outside the loop over
    chunks); BEGIN pushes &evt, END takes top() and pops, a stray END breaks out of the chunk
-   loop before printing; the utilisation counter needs duration > 100; tids count from 0 *)
+   loop before printing; the utilisation counter needs duration > 100; tids count from 0;
+   getThreadTraceList takes the lock first, looks the id up and inserts a new list only when the
+   id is absent; the recording entry points fill a static thread_local cache from it once *)
 Theorem facts_trace_match : tr_eqb gen_tr model_tr = true.
 Proof. exact FactsCheckTrace.tr_match_lemma. Qed.
 Print Assumptions facts_trace_match.
@@ -23,6 +25,7 @@ Theorem facts_trace_model :
   (forall s, seek_of gen_tr s = seek_overwrite s) /\
   (forall pid tid cs st, emit_chunks_of gen_tr pid tid cs st = emit_chunks pid tid cs st) /\
   (forall b e, is_long_of gen_tr b e = is_long b e) /\
-  tr_chunk gen_tr = chunk_size /\ tr_reserve gen_tr = chunk_size.
+  tr_chunk gen_tr = chunk_size /\ tr_reserve gen_tr = chunk_size /\
+  (forall r id, reg_attach_of gen_tr r id = reg_attach r id).
 Proof. exact FactsCheckTrace.tr_sound_lemma. Qed.
 Print Assumptions facts_trace_model.
